@@ -333,15 +333,37 @@ def r4_routing(ctx):
     def pred(e):
         return norm(e) in typ_names
     arms = list(A.branch_chain(fail_if.body, pred))
-    codes = {}
+    # codes reported per note letter: a constant code counts for the letters of its arm, any other code expression is
+    # evaluated with the note letter bound
+    per_letter = {l: set() for l in 'PRECL'}
+    labelled = {lab for lab, _b, _e, _n in arms if lab is not None}
+    in_arms = set()
     for lab, body, extra, node in arms:
         for st in body:
+            in_arms.add(id(st))
+    groups = [(lab, body) for lab, body, extra, node in arms] + [('*', [st for st in fail_if.body if id(st) not in in_arms and not isinstance(st, ast.If)])]
+    for lab, body in groups:
+        for st in body:
             for c2 in A.calls_in(st):
-                if A.call_target(c2)[1] == 'ele_error' and c2.args:
-                    codes.setdefault(lab, set()).add(A.const(c2.args[0]))
-    ok = codes.get('E') == {'10'} and codes.get(None) == {'2'} and set(codes) == {'E', None}
+                if A.call_target(c2)[1] != 'ele_error' or not c2.args:
+                    continue
+                for l in 'PRECL':
+                    if lab == '*' or lab == l or (lab is None and l not in labelled):
+                        a0 = c2.args[0]
+                        if isinstance(a0, ast.Name):
+                            defs = [x.value for x in ast.walk(fail_if) if isinstance(x, ast.Assign) and path_of(x.targets[0]) == a0.id]
+                            a0 = defs[0] if len(defs) == 1 else a0
+                        try:
+                            env = {var: (l, 1, 2)}
+                            for tn in typ_names:
+                                env[tn] = l
+                            per_letter[l].add(A.ev(a0, env))
+                        except A.NotClosed:
+                            per_letter[l].add('?')
+    want = {l: ({'10'} if l == 'E' else {'2'}) for l in 'PRECL'}
+    ok = per_letter == want
     yield Ob('map_if:segment_if.is_valid note letter -> code', ok, ctx.floc(fn, fail_if),
-             '' if ok else 'routing is %s, expected E -> 10, otherwise -> 2' % {k: sorted(v) for k, v in codes.items()})
+             '' if ok else 'routing is %s, expected E -> 10, otherwise -> 2' % {k: sorted(v) for k, v in sorted(per_letter.items())})
     # result cleared on the failure branch
     cleared = False
     for st in fail_if.body:
@@ -360,7 +382,7 @@ def r4_routing(ctx):
 
 RULES = [
     Rule('C14.R1', 'syntax notes of every indexed map are well formed (parse as _split_syntax expects)', r1_data, floor=1500),
-    Rule('C14.R2', 'letter list = branch labels = PRECL; fall-through rejects; position slices tile the note', r2_letters, floor=6),
-    Rule('C14.R3', 'counting idiom recognised; presence test, guard and decision equal the X12 definitions on finite domains', r3_semantics, floor=20),
-    Rule('C14.R4', 'failed note -> ele_error code 10 iff E else 2, result cleared; satisfied note reports nothing', r4_routing, floor=5),
+    Rule('C14.R2', 'letter list = branch labels = PRECL; fall-through rejects; position slices tile the note', r2_letters, floor=4),
+    Rule('C14.R3', 'counting idiom recognised; presence test, guard and decision equal the X12 definitions on finite domains', r3_semantics, floor=15),
+    Rule('C14.R4', 'failed note -> ele_error code 10 iff E else 2, result cleared; satisfied note reports nothing', r4_routing, floor=3),
 ]
